@@ -578,6 +578,22 @@ theorem charge_convention (c : Class11) (rates : List (Nat × Block11 α)) (h : 
     exact List.Nodup.map (fun a b hab => by simpa using hab) h
   exact dictOfList_nodup _ hk
 
+/-- **ADF11 as installed** (`install_adf11*` = `parse_adf11` then `_notation_adf11_adas2cherab`): for a file with pairwise
+distinct `Z1`, every block arrives under charge `Z1 + correction` with the file's density vector, temperature vector and
+`rate[i_ne][i_te]` table (to be read with the conversions `convs11installed`: 10^x·10⁶, 10^x, 10^x·10⁻⁶). -/
+theorem adf11_installed_partial {ν : Type} [DecidableEq ν] (neg : α → Bool) (c : Class11) (t : Tab11 α ν)
+    (hne : t.ne ≠ []) (hte : t.te ≠ []) (hb : t.blocks ≠ []) (hnd : (t.blocks.map (·.z1)).Nodup)
+    (hprobe : t.resolved = none → (lexK11 (ν := ν) neg).digit0 (.nums (probeLine t)) = true) :
+    (parse11 (lexK11 neg) t.z t.name (render11 t)).map (notation11 c)
+      = .ok (t.blocks.map fun b => ((b.z1 : Int) + c.chargeCorrection,
+              { ne := t.ne, te := t.te, rates := tabulate t.ne.length t.te.length b.rate })) := by
+  rw [adf11_roundtrip_partial neg t hne hte hb hprobe]
+  have hk : (t.blocks.map (expectedBlk11 t)).map (·.1) = t.blocks.map (·.z1) := by rw [List.map_map]; rfl
+  rw [dictOfList_nodup _ (by rw [hk]; exact hnd)]
+  simp only [Except.map]
+  rw [charge_convention c _ (by rw [hk]; exact hnd), List.map_map]
+  rfl
+
 /-- scd block `Z1 = z` is stored as the ionisation rate of charge `z − 1`; acd block `Z1 = z` as the recombination
 rate of charge `z` -/
 example : Class11.scd.chargeCorrection = -1 ∧ Class11.plt.chargeCorrection = -1 ∧ Class11.acd.chargeCorrection = 0
